@@ -42,8 +42,25 @@ func VH_C19_AutoPlay() {
 	// snapshot with status playing always carries a hand state here (DESIGN.md, C19)
 	verifrt.Assume(t.State.Status != pokertable.TableStateStatus_TableGamePlaying || gs != nil)
 
+	// an earlier request's countdown may still be pending (nothing cancels it when the
+	// player acted himself): its closure belongs to the old state
+	oldFired := 0
+	if verifrt.Bool("pendingCountdown") {
+		pr.timebank.NewTask(time.Duration(verifrt.IntRange("oldDuration", 1, 3))*time.Second, func(isCancelled bool) {
+			if !isCancelled {
+				oldFired++
+			}
+		})
+	}
+	armed0 := pr.timebank.ModelArmedCount()
+
 	err := ad.UpdateTableState(t)
 	verifrt.Assert(err == nil, "runner accepts the snapshot")
+	if gs != nil {
+		// step lemma for several deliveries: every view is remembered, so an older view
+		// arriving later is recognised as stale
+		verifrt.Assert(pr.curGameID == gs.GameID && pr.lastGameStateTime >= gs.UpdatedAt, "the runner remembers the newest view it was shown")
+	}
 
 	// the conservative choice for this state
 	expect := func() (string, int64) {
@@ -84,20 +101,20 @@ func VH_C19_AutoPlay() {
 
 	if !asked {
 		verifrt.Reach("not asked")
-		verifrt.Assert(len(ad.calls) == 0 && !pr.timebank.ModelArmed(), "not asked: no move and no timer")
+		verifrt.Assert(len(ad.calls) == 0 && pr.timebank.ModelArmedCount() == armed0, "not asked: no move and no new timer")
 	} else if vhHas(allowed, "pass") {
 		verifrt.Reach("pass")
 		verifrt.Assert(len(ad.calls) == 1 && ad.calls[0].kind == "pass" && ad.calls[0].id == vhPIDs[0], "pass is submitted at once when it is allowed")
-		verifrt.Assert(!pr.timebank.ModelArmed(), "pass: no timer")
+		verifrt.Assert(pr.timebank.ModelArmedCount() == armed0, "pass: no new timer")
 	} else if suspended {
 		verifrt.Reach("suspended")
-		verifrt.Assert(!pr.timebank.ModelArmed(), "suspended: no timer")
+		verifrt.Assert(pr.timebank.ModelArmedCount() == armed0, "suspended: no new timer")
 		checkAuto(0)
 	} else {
 		verifrt.Reach("waiting")
 		if t.Meta.ActionTime != 0 {
 			verifrt.Assert(len(ad.calls) == 0, "nothing is submitted before the thinking time has elapsed")
-			verifrt.Assert(pr.timebank.ModelArmed() && pr.timebank.ModelDuration() == time.Duration(t.Meta.ActionTime)*time.Second, "the timer is armed with exactly the action time")
+			verifrt.Assert(pr.timebank.ModelArmed() && pr.timebank.ModelArmedCount() == armed0+1 && pr.timebank.ModelDuration() == time.Duration(t.Meta.ActionTime)*time.Second, "a new timer is armed with exactly the action time (a pending older countdown is replaced)")
 			if verifrt.Bool("cancel") {
 				pr.timebank.Cancel()
 				verifrt.Assert(len(ad.calls) == 0 && !pr.timebank.ModelArmed(), "cancelled timer: no move")
@@ -106,6 +123,7 @@ func VH_C19_AutoPlay() {
 				verifrt.Assert(fired, "timer fires")
 				checkAuto(0)
 				verifrt.Assert(!pr.timebank.ModelFire(), "the timer fires once")
+				verifrt.Assert(oldFired == 0, "the replaced countdown never acts")
 			}
 		} else {
 			// zero action time: the time bank runs the task at once
